@@ -97,6 +97,9 @@ def main():
         if what == "coverage":
             import coverage_check
             return coverage_check.run(args)
+        if what == "extras":
+            import p_x01
+            return p_x01.run(args)
         if what == "all":
             rc = 0
             for pid in PROPS:
